@@ -11,6 +11,7 @@ import (
 	"errors"
 	"fmt"
 	"math/rand"
+	"net"
 	"strings"
 	"sync"
 	"time"
@@ -124,6 +125,9 @@ func Run(rng *rand.Rand, maxSteps int, gateMu *sync.Mutex, allowBoth bool) *Scen
 				k.ret <- "closed"
 			case errors.Is(err, context.Canceled):
 				k.ret <- "ctx"
+			case errors.Is(err, net.ErrClosed):
+				// the listener had been closed already: its error is passed on
+				k.ret <- "lerr"
 			default:
 				k.ret <- "err:" + err.Error()
 			}
@@ -135,6 +139,9 @@ func Run(rng *rand.Rand, maxSteps int, gateMu *sync.Mutex, allowBoth bool) *Scen
 			cands = append(cands, "dial", "dial", "temp")
 			if rng.Intn(6) == 0 {
 				cands = append(cands, "perm")
+			}
+			if rng.Intn(5) == 0 {
+				cands = append(cands, "appclose")
 			}
 		}
 		for k := range open {
@@ -204,6 +211,21 @@ func Run(rng *rand.Rand, maxSteps int, gateMu *sync.Mutex, allowBoth bool) *Scen
 			}
 			// the perm event itself is the return in the specification: drop the duplicate
 			sc.Events = sc.Events[:len(sc.Events)-1]
+		case ev == "appclose":
+			// the application closes the listener itself; Serve ends with the
+			// Accept error, and a later Close still has to do everything else
+			l.Close()
+			sc.Events = append(sc.Events, Event{"ev": "appclose"})
+			logServeRet(2 * time.Second)
+			if served {
+				sc.Note = "Serve did not return after the listener was closed"
+				return sc
+			}
+			sc.Events[len(sc.Events)-1]["ev"] = "serveret-appclosed"
+			if sc.Events[len(sc.Events)-1]["res"] != "perm" {
+				sc.Note = "Serve returned nil although the server was not closed"
+				return sc
+			}
 		case ev == "connfinish":
 			for k := range open {
 				conns[k-1].Close()
@@ -228,11 +250,11 @@ func Run(rng *rand.Rand, maxSteps int, gateMu *sync.Mutex, allowBoth bool) *Scen
 			if !wasWinner {
 				winner = true
 				if cl[c].kind == "close" {
-					if cl[c].res == "nil" {
+					if cl[c].res == "nil" || cl[c].res == "lerr" {
 						// Close ends every connection accepted before it
 						for k := range open {
 							if !endedByServer(conns[k-1]) {
-								sc.Note = fmt.Sprintf("connection %d was accepted before Close, and is still open after Close returned nil (script %v)", k, sc.Script)
+								sc.Note = fmt.Sprintf("connection %d was accepted before Close, and is still open after Close returned %s (script %v)", k, cl[c].res, sc.Script)
 								return sc
 							}
 						}
@@ -280,7 +302,7 @@ func Run(rng *rand.Rand, maxSteps int, gateMu *sync.Mutex, allowBoth bool) *Scen
 			pollRet("c2", 300*time.Millisecond)
 			// only a Close that won closes the connections
 			for _, c := range []string{"c1", "c2"} {
-				if cl[c].kind == "close" && cl[c].res == "nil" {
+				if cl[c].kind == "close" && (cl[c].res == "nil" || cl[c].res == "lerr") {
 					open = map[int]bool{}
 				}
 			}
@@ -304,7 +326,7 @@ func Run(rng *rand.Rand, maxSteps int, gateMu *sync.Mutex, allowBoth bool) *Scen
 			sc.Note = fmt.Sprintf("%s (%s) did not return although no connection is left", c, cl[c].kind)
 		}
 	}
-	if served && !winner {
+	if !winner {
 		for _, c := range []string{"c1", "c2"} {
 			if !cl[c].called {
 				sc.Events = append(sc.Events, Event{"ev": "call", "c": c, "kind": cl[c].kind})
